@@ -5,7 +5,7 @@ ocaml/pyglue/driver.ml).  One value is a self-delimiting string without spaces,
   N None | T True | F False | O object() | i<int>. | f<u64 bits of the float>. |
   s<hex utf-8>. str | y<hex>. bytes | V<slot>. object created earlier in the history |
   R<k>. the float returned by op number k of the history (pvalue / score results) |
-  L(<v>*) list | U(<v>*) tuple | D(<k><v> ...) dict
+  L(<v>*) list | U(<v>*) tuple | G(<v>*) generator object yielding the items | D(<k><v> ...) dict
 
 The abstract syntax is a tuple: ('N',) ('T',) ('F',) ('O',) ('i', n) ('f', bits)
 ('s', text) ('y', data) ('V', slot) ('L', [..]) ('U', [..]) ('D', [(k, v), ..]).
@@ -31,7 +31,7 @@ def parse(s, i=0):
         if c == "R":
             return ("R", int(body)), j + 1
         return ("V", int(body)), j + 1
-    if c in "LUD":
+    if c in "LUDG":
         assert s[i + 1] == "("
         i += 2
         items = []
@@ -69,7 +69,7 @@ def show(v):
         return "V%d." % v[1]
     if t == "R":
         return "R%d." % v[1]
-    if t in "LU":
+    if t in "LUG":
         return "%s(%s)" % (t, "".join(show(x) for x in v[1]))
     if t == "D":
         return "D(%s)" % "".join(show(k) + show(x) for k, x in v[1])
@@ -136,6 +136,9 @@ def to_py(v, slots):
         return [to_py(x, slots) for x in v[1]]
     if t == "U":
         return tuple(to_py(x, slots) for x in v[1])
+    if t == "G":
+        items = [to_py(x, slots) for x in v[1]]
+        return (x for x in items)
     if t == "D":
         return {to_py(k, slots): to_py(x, slots) for k, x in v[1]}
     raise ValueError(v)
@@ -145,7 +148,7 @@ def refs(v):
     t = v[0]
     if t == "V":
         return [v[1]]
-    if t in "LU":
+    if t in "LUG":
         return [r for x in v[1] for r in refs(x)]
     if t == "D":
         return [r for k, x in v[1] for r in refs(k) + refs(x)]
